@@ -30,7 +30,7 @@ def required_counters(tier):
     return ["inject:call", "inject:after-sr", "inject:mid-body", "inject:close", "disconnect:RST", "disconnect:CLOSE", "disconnect:110",
             "close-events", "file-close-events", "outcome:500", "outcome:truncated", "probe-served", "class:Exception",
             "class:OSError", "class:BaseException", "expose:on", "expose:off", "logsock:on", "logsock:off",
-            "disconnect-before-output", "disconnect-raced-application-output", "pipelined-file-teardowns", "handover-race-schedules"]
+            "disconnect-before-output", "disconnect-raced-application-output", "pipelined-file-teardowns", "handover-race-schedules", "stalled-peer-reaped-by-idle-cleanup", "head-requests"]
 
 
 def base_programs():
@@ -108,6 +108,12 @@ def run_case(case, strat=None, record_pilot=False):
         return holder["app"](environ, start_response)
 
     adj = {"threads": 2, "expose_tracebacks": case["expose"], "log_socket_errors": case["logsock"], "send_bytes": 1}
+    if case.get("watermark"):
+        adj["outbuf_high_watermark"] = case["watermark"]
+    if case.get("stall_timeout"):
+        adj["channel_timeout"] = 3
+        adj["cleanup_interval"] = 1
+        adj["asyncore_loop_timeout"] = 1
     if case.get("after_head"):
         # (with look-ahead the channel keeps reading while the request executes and notices the disconnect)
         adj["channel_request_lookahead"] = 1
@@ -118,7 +124,7 @@ def run_case(case, strat=None, record_pilot=False):
         adj["channel_request_lookahead"] = 1
         prog = dict(prog, steps=[["wait", "gate"]] + list(prog["steps"]))
     w = World(app, strategy=R.make_strategy(strat or {"kind": "np"}), adj_kw=adj, sndbuf=case.get("sndbuf", 600), step_limit=150000,
-              record_pilot=record_pilot)
+              record_pilot=record_pilot, infinite_poll=not case.get("stall_timeout"))
 
     prog2 = case.get("prog2")
 
@@ -156,7 +162,15 @@ def run_case(case, strat=None, record_pilot=False):
             out["client"] = c
             done.set()
             return
-        c.send(("GET /case HTTP/%s\r\nHost: h\r\n\r\n" % v).encode())
+        c.send(("%s /case HTTP/%s\r\nHost: h\r\n\r\n" % (case.get("method", "GET"), v)).encode())
+        if case.get("stall_timeout"):
+            # never reads a byte and stays connected: only the idle clean-up can end this connection
+            w.sleep(14.0)
+            out["received"] = bytes(c.conn.client_received)
+            out["eof"] = c.conn.server_closed
+            out["client"] = c
+            done.set()
+            return
         if case.get("after_head"):
             # goes away the moment the first bytes of the response arrive (the head is on the wire,
             # the body may not have been handed over yet)
@@ -240,7 +254,7 @@ def judge(case, o, acc):
     I = apps.intended(prog, "GET")
     disconnect = case.get("disconnect") or ([case["early_disconnect"], -1] if case.get("early_disconnect") else None)
     wire = o.get("received", b"")
-    resps, werr, left = rs.parse_responses(wire, ["GET"], eof=o.get("eof", False))
+    resps, werr, left = rs.parse_responses(wire, [case.get("method", "GET")], eof=o.get("eof", False))
     # ---- threads survive
     if not w.io_alive():
         out.append(("io-thread-died", "I/O loop ended: " + getattr(w, "loop_error", "?")))
@@ -268,6 +282,11 @@ def judge(case, o, acc):
             acc.count("file-closed-more-than-once")
     if case.get("after_head"):
         acc.count("disconnect-between-head-and-body-handover")
+        return out
+    if case.get("stall_timeout"):
+        acc.count("stalled-peer-reaped-by-idle-cleanup")
+        if not o.get("eof"):
+            out.append(("stalled-connection-not-closed", "the idle clean-up did not close the connection of a peer that never read"))
         return out
     if case.get("pipeline_files"):
         acc.count("pipelined-file-teardowns")
@@ -422,6 +441,29 @@ def run_shard(spec):
                                 "pipeline_files": how, "sndbuf": 600}
                         strat = None if sch == 0 else {"kind": "random", "seed": spec["seed"] * 131 + k, "p": [0.02, 0.1, 0.3][sch % 3]}
                         run_and_judge(acc, case, f"pf|{raises_first}|{how}|{size2}|{sch}", strat)
+        # a peer that never reads and never leaves: the idle clean-up ends the connection and must release the file
+        for ret in ("fw_seek", "fw_noseek"):
+            prog = {"status": "200 OK", "headers": [["X-P", ret]], "cl": 1500, "sr": "call", "steps": [], "ret": ret,
+                    "fw": {"content": big, "pos": 0}, "close": "ok", "exc": "Exception"}
+            for sch in range(spec["schedules"]):
+                case = {"prog": prog, "exc": "Exception", "expose": False, "logsock": True, "version": "1.1", "stall_timeout": True, "sndbuf": 600}
+                run_and_judge(acc, case, f"stall|{ret}|{sch}", None if sch == 0 else {"kind": "random", "seed": 5 + sch, "p": 0.05})
+        # a producer paused on the watermark whose peer is gone for good (every send fails, no disconnect errno)
+        body = [["yield", big[:400]], ["yield", big[400:800]], ["yield", big[800:1200]], ["yield", big[1200:]]]
+        for ret in ("gen", "iterlen"):
+            prog = {"status": "200 OK", "headers": [["X-P", ret]], "cl": 1500, "sr": "call", "steps": body, "ret": ret, "close": "ok", "exc": "Exception"}
+            for k in (1, 2, 3, 4):
+                for sch in range(spec["schedules"]):
+                    case = {"prog": prog, "exc": "Exception", "expose": False, "logsock": bool(k % 2), "version": "1.1", "sndbuf": 300,
+                            "watermark": 256, "disconnect": [110, k]}
+                    run_and_judge(acc, case, f"deadwm|{ret}|{k}|{sch}", None if sch == 0 else {"kind": "random", "seed": 9 + sch + k, "p": 0.1})
+        # failures answered to HEAD requests
+        for prog0 in progs[:6]:
+            for label, p in injections(prog0)[:2]:
+                for v in ("1.1", "1.0"):
+                    case = {"prog": p, "exc": "Exception", "expose": False, "logsock": True, "version": v, "method": "HEAD"}
+                    run_and_judge(acc, case, f"head|{label}|{v}|{prog0['ret']}|{len(prog0['steps'])}", None)
+                    acc.count("head-requests")
         acc.sample({"pipelined_files": "two file_wrapper responses queued to a client that never reads, then a reset; close() of one file raises"})
     elif spec["mode"] == "handover-race":
         # the client goes away as soon as the head arrives; a forced switch plus a pick preference: the
